@@ -1,6 +1,8 @@
 package controller
 
 import (
+	"time"
+
 	"github.com/markusressel/fan2go/internal/configuration"
 	"github.com/markusressel/fan2go/internal/curves"
 	"github.com/markusressel/fan2go/internal/sensors"
@@ -151,4 +153,28 @@ func ZZ_C09_F2_RpmPollWithFaults() {
 	e.zzController(zzLoop(0), 0, 2)
 	e.c.measureRpm(e.c.fan)
 	zzv.Assert(true, "F2.rpm_poll_completes")
+}
+
+//zzv:bound F7 = the fan's actors as the daemon runs them (real (*DefaultFanController).Run, run.Group sequentialised, up to 2 ticks): a control cycle that returns an error - a never-stop fan stalled at its maximum, or a PWM read fault in the first cycle - is notified, the fan is handed back, and Run returns nil without a panic (the caller in backend.go panics on any error Run returns, taking the other fans down with it)
+
+func ZZ_C09_F7_ControlErrorStopsOnlyThisFan() {
+	configuration.CurrentConfig.RpmPollingRate = time.Millisecond
+	configuration.CurrentConfig.RpmRollingWindowSize = 10
+	pwmReadFault := zzv.Choice("cause", 2) == 1 // 0: stalled at maximum, 1: PWM read fault
+	e := zzNewFan(zzKindHwmon, !pwmReadFault, true, true, true, zzRange("originalPwm", 0, 255), 2, 0)
+	e.hw.Config.PwmMap = &map[int]int{0: 0, 255: 255}
+	mem := &zzMemPersistence{rpm: map[string]map[int]float64{"zzfan": {0: 0, 255: 3000}}, pwmMaps: map[string]map[int]int{}}
+	e.curve = &zzCurve{id: "zzcurve", v: 255}
+	c := &DefaultFanController{persistence: mem, fan: e.fan, curve: e.curve, updateRate: time.Millisecond,
+		pwmValuesWithDistinctTarget: []int{}, controlLoop: zzLoop(0)}
+	e.c = c
+	if pwmReadFault {
+		zzv.FileFault(e.pwmPath, true, zzv.WriteOK)
+	}
+	ctx, cancel := zzv.NewContext()
+	zzv.CancelAfter(cancel, 3500) // native runs: start-up sleeps 2 s + 1 s before the first tick
+	zzv.SetTicks(2)
+	err := c.Run(ctx)
+	zzv.RecordB("runReturnedError", err != nil)
+	zzv.Assert(err == nil, "F7.control_error_does_not_become_a_daemon_error")
 }
